@@ -597,7 +597,8 @@ Qed.
 (* ------------------------------------------------------------------------------------------- *)
 (* one step, then whole histories                                                              *)
 (* ------------------------------------------------------------------------------------------- *)
-Definition no_merge (o : op) : Prop := match o with Merge _ _ _ => False | _ => True end.
+Definition no_merge (o : op) : Prop :=
+  match o with Merge _ _ _ | Inject _ _ | GetA _ _ => False | _ => True end.
 
 (* "additions with distinct identifiers": when an identifier is looked up, the store holds no
    identifier twice *)
